@@ -82,6 +82,33 @@ def check_list(fn, final_return=None):
         items += actions([s])
     return items
 
+# The descriptor semantics of Model/Checks.v gives each predicate / conversion helper of Debiaser a fixed
+# meaning (is an ndarray, has 3 dimensions, all three spatial shapes equal, ...).  That meaning is valid for
+# exactly these bodies: a helper whose body reads differently is refused (fail-closed), so that e.g. a
+# shape test on one axis only cannot hide behind the unchanged check list.
+PRED_BODIES = {
+    "_is_correct_type": "return isinstance(df, np.ndarray)",
+    "_has_correct_shape": "return df.ndim == 3",
+    "_have_same_shape": "return obs.shape[1:] == cm_hist.shape[1:] and obs.shape[1:] == cm_future.shape[1:]",
+    "_contains_inf_nan": "return np.any(np.logical_or(np.isnan(x), np.isinf(x)))",
+    "_not_if_or_nan_vals_outside_reasonable_physical_range": "if self.reasonable_physical_range is not None:\n    return not np.all((x >= self.reasonable_physical_range[0]) & (x <= self.reasonable_physical_range[1]) | np.isinf(x) | np.isnan(x)); return False",
+    "_has_float_dtype": "return np.issubdtype(x.dtype, np.floating)",
+    "_is_masked_array": "return isinstance(x, np.ma.core.MaskedArray)",
+    "_masked_array_contains_invalid_values": "return np.any(x.mask)",
+    "_convert_to_float_dtype": "try:\n    return x.astype(float)\nexcept Exception:\n    raise ValueError('Conversion to float not possible. Please use float datatype for obs, cm_hist, cm_future.')",
+    "_fill_masked_array_with_nan": "return x.filled(np.nan)",
+}
+
+def check_helper_bodies(tree, used):
+    for name in sorted(used):
+        if name not in PRED_BODIES:
+            raise Refuse("check list uses the helper %s, which has no descriptor semantics" % name)
+        m = find_method(tree, "Debiaser", name)
+        body = [s for s in m.body if not (isinstance(s, ast.Expr) and isinstance(s.value, ast.Constant))]
+        got = "; ".join(ast.unparse(x) for x in body)
+        if got != PRED_BODIES[name]:
+            raise Refuse("helper Debiaser.%s has an unrecognised body: %s" % (name, got[:160]))
+
 def find_method(tree, cls, name):
     for n in tree.body:
         if isinstance(n, ast.ClassDef) and n.name == cls:
@@ -116,6 +143,8 @@ def generate_checks(repo):
     t = load("ibicus/debias/_debiaser.py")
     items = check_list(find_method(t, "Debiaser", "_check_inputs_and_convert_if_possible"), "(obs, cm_hist, cm_future)")
     out_items = check_list(find_method(t, "Debiaser", "_check_output"))
+    import re
+    check_helper_bodies(t, set(re.findall(r'"(_[a-z_]+)"', " ".join(items + out_items))))
     td = load("ibicus/debias/_delta_change.py")
     txt = "(* GENERATED by /verif/translator/gen_checks.py from ibicus/debias/_debiaser.py, _delta_change.py -- do not edit. *)\n"
     txt += "From Coq Require Import List Bool String.\nFrom IV Require Import ChecksBase.\nImport ListNotations.\nOpen Scope string_scope.\n\n"
